@@ -5,7 +5,9 @@ import tempfile
 import time
 
 
-def _cli_check(smt2: str, tool: str, timeout_s: int):
+def _cli_check(smt2: str, tool: str, timeout_s: int, cancel=None):
+    """cancel: optional object with .deadline (absolute time or None) that another thread may set
+    to cut this run short (used by the portfolio once the other solver has decided)."""
     with tempfile.NamedTemporaryFile("w", suffix=".smt2", delete=False) as f:
         f.write(smt2)
         path = f.name
@@ -15,17 +17,27 @@ def _cli_check(smt2: str, tool: str, timeout_s: int):
         else:
             cmd = ["/usr/bin/z3", f"-T:{timeout_s}", path]
         t0 = time.time()
+        res = "unknown"
+        p = subprocess.Popen(cmd, stdout=subprocess.PIPE, stderr=subprocess.DEVNULL, text=True)
         try:
-            p = subprocess.run(cmd, capture_output=True, text=True, timeout=timeout_s + 5)
-            out = p.stdout.strip().splitlines()
-            res = out[0].strip() if out else "unknown"
-        except subprocess.TimeoutExpired:
-            res = "unknown"
+            while True:
+                try:
+                    out, _ = p.communicate(timeout=0.2)
+                    lines = out.strip().splitlines()
+                    res = lines[0].strip() if lines else "unknown"
+                    break
+                except subprocess.TimeoutExpired:
+                    now = time.time()
+                    if now - t0 > timeout_s + 5 or (cancel is not None and cancel.deadline is not None and now > cancel.deadline):
+                        p.kill()
+                        p.communicate()
+                        break
+        finally:
+            if p.poll() is None:
+                p.kill()
         ms = (time.time() - t0) * 1000
         if res not in ("sat", "unsat"):
             res = "unknown"
         return res, ms
     finally:
         os.unlink(path)
-
-
